@@ -312,6 +312,11 @@ func compareInst(acc *diffAcc, got x86ref.Inst, want x86ref.Inst) {
 			acc.flag(g.Size != w.Size)
 		case x86ref.KSreg, x86ref.KCreg:
 			acc.flag(g.Reg != w.Reg)
+			if want.NOps == 1 && (want.Op == "PUSH" || want.Op == "POP") {
+				// PUSH/POP Sreg moves the stack by the mode's operand size: an
+				// operand-size prefix changes the instruction
+				acc.flag(got.Has66)
+			}
 		case x86ref.KImm:
 			acc.flag(g.Size != w.Size)
 			acc.eq(uint64(g.Imm)&maskOf(w.Size), uint64(w.Imm)&maskOf(w.Size))
